@@ -42,7 +42,7 @@ def expand_for(lines):
 def parse_spec(path):
     cfg = {'record_names': {}, 'extern_c': [], 'trivial_externals': [], 'roots': [], 'prelude': [],
            'midlude': [], 'postlude': [], 'includes': [], 'defines': [], 'stub_functions': [],
-           'params_as_locals': [], 'typedefs': {}, 'pure_hoist': [], 'cbmc_flags': [], 'skip_records': []}
+           'params_as_locals': [], 'typedefs': {}, 'pure_hoist': [], 'cbmc_flags': [], 'skip_records': [], 'ext_overload_by_type': []}
     contracts = {}
     harnesses = []
     cur = None          # current function contract dict
@@ -115,12 +115,14 @@ def parse_spec(path):
                 a, _, b = rest.partition(' = ')
                 cfg['typedefs'][a.strip()] = b.strip()
             elif key in ('@roots', '@extern_c', '@prelude', '@midlude', '@postlude', '@includes', '@defines',
-                         '@stub_functions', '@params_as_locals', '@pure_hoist', '@cbmc_flags', '@skip_records'):
+                         '@stub_functions', '@params_as_locals', '@pure_hoist', '@cbmc_flags', '@skip_records', '@ext_overload_by_type'):
                 cfg[key[1:]] += rest.split()
             elif key == '@trivial_external':
                 cfg['trivial_externals'].append(rest)
             elif key in ('@driver', '@filter', '@component'):
                 cfg[key[1:]] = rest
+            elif key == '@abstract_tables':
+                cfg['abstract_tables'] = rest.strip() not in ('0', 'no')
             elif key == '@tolerated_clang_errors':
                 cfg['tolerated_clang_errors'] = int(rest)
             else:
